@@ -409,7 +409,8 @@ impl Gen {
                 3 => m.executors = vec![],
                 4 => m.approvers = vec![],
                 5 => {
-                    let p = self.rng.below(21) as u32;
+                    // the bound itself (18 / 19) as often as everything else together
+                    let p = if self.rng.pct(50) { *self.rng.pick(&[17u32, 18, 18, 19, 19, 19, 20]) } else { self.rng.below(21) as u32 };
                     m.price_precision = Uint128::new(p as u128);
                     if self.rng.pct(25) {
                         // precisions whose low 8 / 16 / 32 / 64 bits look legal (a narrowing cast before the bound)
@@ -418,8 +419,8 @@ impl Gen {
                     }
                     let pw = 10u128.pow(p.min(25));
                     let k = 1 + self.rng.below(12) as u128;
-                    m.size_increment = Uint128::new(match self.rng.below(6) {
-                        0 => pw * k,
+                    m.size_increment = Uint128::new(match self.rng.below(8) {
+                        0 | 6 | 7 => pw * k,
                         1 => pw * k + 1,
                         2 => (pw * k).saturating_sub(1),
                         3 => pw / 10,
